@@ -498,6 +498,21 @@ def run(prop, tier, replay=None):
             consider(case, formula, json.loads(cache[sh][line - 1]))
         for cid, formula, e in extra_failed:
             consider(cid, formula, e)
+        pstat_calls = 0
+        if prop == "C18" and not replay:
+            # the proxy path (RegisterConn): interceptors installed on the front, scripts of Proxy.tla
+            from . import proxy as PX
+            pv, pstat_calls = PX.intercept_violations(prop, tier, scratch, harness, seed)
+            for key, v in pv.items():
+                kf = C.match_finding(findings, prop, v["signature"])
+                if kf:
+                    known[kf["id"]] += 1
+                    continue
+                o = v["observed"]
+                v["observed"] = dict(c=dict(tag="proxy", proto="grpc", shape=o["s"]["shape"], codec="proto", comp=""), cl=dict(http=200, status=dict(present=False), msgs=[]),
+                                     h=dict(recv=[]), crash=v["what"], proxy=o)
+                v["signature"].update(code=None, proto="grpc", codec="proto", comp="", truncated=False, stats=False)
+                viol[(v["formula"], "proxy", key[1], "proto", "", None, False, False)] = v
         ustat = collections.Counter()
         if prop in ("C06", "C08") and (not replay or replay_ups):
             # HttpBody chunk framing: uploads of every length around multiples of the chunk size, through Recv(),
@@ -565,7 +580,7 @@ def run(prop, tier, replay=None):
                          "and judged by TLC against Rpc!View. Non-trivial = RPCs in which the property's antecedent holds (failing handler / "
                          "streaming shape / limit set / metadata set / options installed)."),
                    samples=samples, exhaustive=False, **{k: v for k, v in stat.items() if k not in ("rpcs",)},
-                   httpbody_uploads=ustat["retains"], httpbody_chunks=ustat["chunks"], httpbody_bytes=ustat["bytes"],
+                   proxied_calls_with_interceptors=pstat_calls, httpbody_uploads=ustat["retains"], httpbody_chunks=ustat["chunks"], httpbody_bytes=ustat["bytes"],
                    known_findings=dict(known))
         C.write_evidence(prop, tier, "model_checking", cov,
                          ["direct drive through Mux.ServeHTTP with httptest (HTTP/2 framing for gRPC is emulated by ProtoMajor=2 and recorder trailers)",
